@@ -63,6 +63,16 @@ WellFormedFor(fam, b) ==
        [] fam = "shutter" -> At(b, 135) <= 100 /\ At(b, 136) = 0 /\ Field(b, 137, 2) \in Directions
        [] OTHER -> FALSE
 
+\* broadcasts the decoder TOLERATES although an enumerated byte is outside its domain: the state byte of a heater or plug
+\* (anything but 01 reads as off), and of a thermostat its power byte, its mode byte (an unknown mode reads as cool) and its
+\* swing nibble.  What those fields then read as is not constrained here - but such a broadcast is still one the bridge hands over.
+Tolerated(fam, b) ==
+  /\ Len(b) = FamLen(fam) /\ CommonOk(b)
+  /\ CASE fam = "heater" -> TimeOk(Field(b, 155, 4)) /\ (At(b, 133) # 1 \/ TimeOk(Field(b, 147, 4)))
+       [] fam = "plug" -> TRUE
+       [] fam = "thermo" -> At(b, 140) \div 16 \in 0..3 /\ IsAsciiPrintable(Field(b, 143, 8))
+       [] OTHER -> FALSE
+
 \* what the callback must receive for a well-formed broadcast of family fam
 DecodeDevice(fam, b) ==
   LET t1 == fam \in {"heater", "plug"}
